@@ -26,6 +26,7 @@ import (
 	scalibr "github.com/google/osv-scalibr"
 	"github.com/google/osv-scalibr/extractor/filesystem"
 	el "github.com/google/osv-scalibr/extractor/filesystem/list"
+	"github.com/google/osv-scalibr/extractor/filesystem/os/rpm"
 	scalibrfs "github.com/google/osv-scalibr/fs"
 	"github.com/google/osv-scalibr/inventory"
 	"github.com/google/osv-scalibr/plugin"
@@ -65,6 +66,7 @@ type msg struct {
 	Alloc  uint64 `json:"alloc,omitempty"`
 	SlowMs int64  `json:"slow_ms,omitempty"`
 	Obs    string `json:"obs,omitempty"`
+	Stack  string `json:"stack,omitempty"`
 }
 
 const osRelease = "NAME=\"Debian GNU/Linux\"\nID=debian\nVERSION_ID=\"12\"\nVERSION_CODENAME=bookworm\n"
@@ -158,7 +160,23 @@ func extractorNames() []string {
 	return out
 }
 
+// rpmTimeout is the value given to os/rpm's own Timeout knob (the bound it puts on go-rpmdb looping over a
+// corrupt BerkeleyDB file; default 5 min). One-line mutants of testdata/Packages_epoch do run into it, and at
+// 5 min apiece neither tier would fit its budget, so the harness turns the knob down; the code path is the
+// same and the hang watchdog (120 s) stays far above it.
+func rpmTimeout() time.Duration {
+	if os.Getenv("VERIF_TIER") == "thorough" {
+		return 30 * time.Second
+	}
+	return 8 * time.Second
+}
+
 func newExtractor(name string) filesystem.Extractor {
+	if name == rpm.Name {
+		cfg := rpm.DefaultConfig()
+		cfg.Timeout = rpmTimeout()
+		return rpm.New(cfg)
+	}
 	fns := el.All[name]
 	if len(fns) == 0 {
 		return nil
@@ -585,6 +603,27 @@ func (sc *scene) extractOnce(ex filesystem.Extractor) (result, error) {
 	return res, nil
 }
 
+// trimStack keeps the frames between the panic and the harness.
+func trimStack(stack string) string {
+	lines := strings.Split(stack, "\n")
+	var out []string
+	started := false
+	for i := 0; i < len(lines); i++ {
+		if !started {
+			started = strings.HasPrefix(lines[i], "panic(")
+			continue
+		}
+		if strings.HasPrefix(lines[i], "main.") {
+			break
+		}
+		out = append(out, lines[i])
+	}
+	if len(out) > 60 {
+		out = out[:60]
+	}
+	return strings.Join(out, "\n")
+}
+
 func shortSite(stack string) string {
 	return strings.TrimPrefix(ev.PanicSite(stack), "extractor/filesystem/")
 }
@@ -634,6 +673,7 @@ type replayData struct {
 	Seed      string `json:"seed"`
 	Mutation  string `json:"mutation"`
 	DataB64   string `json:"mutant_b64"`
+	Stack     string `json:"stack,omitempty"`
 }
 
 func mkReplay(kind string, u unit, c cand, d string, data []byte) replayData {
@@ -717,7 +757,7 @@ func runExtractUnit(u unit) error {
 		case res.panicked:
 			first := strings.SplitN(res.stack, "\n", 2)[0]
 			_ = first
-			send(msg{T: "viol", Key: u.Ex + ":" + shortSite(res.stack), Seq: seq,
+			send(msg{T: "viol", Key: u.Ex + ":" + shortSite(res.stack), Seq: seq, Stack: trimStack(res.stack),
 				What: fmt.Sprintf("%s Extract(%s) panicked: %s [seed %s, %s, content %s]", u.Ex, sc.c.Path, res.pval, u.Seed, d, preview(data))})
 			exerc++
 			hashes = append(hashes, h)
@@ -874,7 +914,7 @@ func runContainUnit(u unit) error {
 		return fmt.Sprintf("[%s at %s, seed %s, %s, content %s]", u.Ex, sc.c.mutPath(), u.Seed, desc, preview(data))
 	}
 	if pval != nil {
-		send(msg{T: "viol", Key: u.Ex + ":scan-panic:" + shortSite(stack), Seq: u.Seq, What: fmt.Sprintf("Scan panicked: %v %s", pval, rp())})
+		send(msg{T: "viol", Key: u.Ex + ":scan-panic:" + shortSite(stack), Seq: u.Seq, Stack: trimStack(stack), What: fmt.Sprintf("Scan panicked: %v %s", pval, rp())})
 		send(msg{T: "contain", Obs: "scan panicked"})
 		return nil
 	}
